@@ -304,6 +304,10 @@ MUTUAL = [  # (effect text, {target: expression over PRE-state values}) - severa
     ("(and (increase (f) (g ?x)) (assign (g ?x) (* (f) 2)) (decrease (out) (g ?x)))",
      {"f": "(+ (f) (g ?x))", "g ?x": "(* (f) 2)", "out": "(- (out) (g ?x))"}),
     ("(and (assign (g ?x) (g ?y)) (assign (g ?y) (g ?x)))", {"g ?x": "(g ?y)", "g ?y": "(g ?x)"}),
+    # the same dependencies across two effect groups (the condition holds on the whole grid)
+    ("(and (assign (g ?x) (g ?y)) (when (>= (f) -100) (assign (g ?y) (g ?x))))", {"g ?x": "(g ?y)", "g ?y": "(g ?x)"}),
+    ("(and (increase (f) (out)) (when (<= (f) 100) (increase (out) (f))))", {"f": "(+ (f) (out))", "out": "(+ (out) (f))"}),
+    ("(and (when (<= (out) 100) (assign (f) (g ?x))) (when (>= (out) -100) (assign (g ?x) (f))))", {"f": "(g ?x)", "g ?x": "(f)"}),
 ]
 
 
@@ -377,7 +381,10 @@ CHAIN = [("(and (increase (f) 1.5))", {"f": "(+ (f) 1.5)"}), ("(and (decrease (f
          ("(and (increase (f) 1) (increase (out) (* 2 (+ (f) 1))))", {"f": "(+ (f) 1)", "out": "(+ (out) (* 2 (+ (f) 1)))"}),
          ("(and (decrease (g ?x) 0.5) (assign (out) (/ (- (g ?x) 1) (+ (f) (/ 1 2)))))",
           {"g ?x": "(- (g ?x) 0.5)", "out": "(/ (- (g ?x) 1) (+ (f) (/ 1 2)))"}),
-         ("(and (assign (f) (- 0 (* 2 (- 1 (f)))))  )", {"f": "(- 0 (* 2 (- 1 (f))))"})]
+         ("(and (assign (f) (- 0 (* 2 (- 1 (f)))))  )", {"f": "(- 0 (* 2 (- 1 (f))))"}),
+         # amounts at and below the comparison tolerance are amounts all the same
+         ("(and (increase (f) 0.00005) (decrease (out) 0.0001))", {"f": "(+ (f) 0.00005)", "out": "(- (out) 0.0001)"}),
+         ("(and (decrease (g ?x) (* (f) 0.00002)))", {"g ?x": "(- (g ?x) (* (f) 0.00002))"})]
 UNDEF_PROGRAMS = [  # (precondition, effect): the fluent (out) is read / written but the state does not define it
     ("(and (>= (out) 5))", "(and (increase (f) 1))"), ("(and)", "(and (increase (out) 1))"),
     ("(and (< (+ (out) (f)) 3))", "(and (assign (f) (+ (out) 2)))"), ("(and)", "(and (decrease (out) (f)) (increase (f) 1))"),
